@@ -3,6 +3,7 @@
    All theorems hold for EVERY text and pattern (any length), every char_ops (Go's unicode tables are parameters)
    and every scheme satisfying the stated inequalities (the three shipped schemes do: GeneratedCheck). *)
 From Fzf Require Import Prelude AlgoSpec AlgoModel AlgoBasics PrefilterProofs V1Proofs OccursBasics AnchoredProofs ExactProofs.
+From Fzf Require Import V2Facts V2ScanBasics V2ScanPhase2 V2ScanProofs V2Glue.
 Open Scope Z_scope.
 
 (* the spec's decidable subsequence test means "a witness exists" *)
@@ -43,6 +44,45 @@ Proof.
   - intros lo hi Hp. exact (afi_window_sound co cs nm Hn ib text pat lo hi Hp Ha).
 Qed.
 Print Assumptions ascii_prefilter_sound.
+
+(* ---- FuzzyMatchV2 (any scratch capacity incl. the V1 fallback and a nil slab) ---- *)
+(* reported as not matching only if no witness exists *)
+Theorem v2_complete : forall co sc cs nm fwd ib text pat wp cap,
+  (ib = true -> Forall (fun c => 0 <= c < 128) text) -> (forall c, c < 192 -> co_norm co c = c) ->
+  fuzzy_v2 co sc cs nm fwd ib text pat wp cap = Ok NoMatch -> subseq_b co cs nm text pat = false.
+Proof. exact v2_complete_closed. Qed.
+Print Assumptions v2_complete.
+
+(* a reported match means a witness exists *)
+Theorem v2_match_has_witness : forall co sc cs nm fwd ib text pat wp cap s e score pos,
+  (forall c, c < 192 -> co_norm co c = c) ->
+  fuzzy_v2 co sc cs nm fwd ib text pat wp cap = Ok (Match s e score pos) -> pat <> [] ->
+  exists ps, witness co cs nm text pat ps = true.
+Proof.
+  intros co sc cs nm fwd ib text pat wp cap s e score pos Hn H Hp.
+  apply subseq_b_iff_witness. exact (v2_match_subseq_closed co sc cs nm fwd ib text pat wp cap s e score pos Hn H Hp).
+Qed.
+Print Assumptions v2_match_has_witness.
+
+(* one-character patterns: the reported position holds the character, range = that position, positions = [it] *)
+Theorem v2_single_sound : forall co sc cs nm fwd ib text p wp cap s e score pos,
+  scheme_nonneg sc -> (forall c, c < 192 -> co_norm co c = c) ->
+  (forall c, cap = Some c -> Z.of_nat (length text) <= c) ->
+  fuzzy_v2 co sc cs nm fwd ib text [p] wp cap = Ok (Match s e score pos) ->
+  e = S s /\ (s < length text)%nat /\ fold co cs nm (nth s text 0) = p /\ pos = (if wp then Some [s] else None).
+Proof.
+  intros co sc cs nm fwd ib text p wp cap s e score pos Hs Hn Hc H.
+  destruct (v2_single_sound_proof co sc cs nm fwd ib text p wp cap s e score pos Hs Hn Hc H) as [A [B [C [D _]]]].
+  repeat split; assumption.
+Qed.
+Print Assumptions v2_single_sound.
+
+(* beyond the pre-allocated scratch memory V2 IS V1 (whose theorems are above) *)
+Theorem v2_fallback_is_v1 : forall co sc cs nm fwd ib text pat wp cap,
+  pat <> [] -> (length pat <= length text)%nat -> cap < Z.of_nat (length text) * Z.of_nat (length pat) ->
+  fuzzy_v2 co sc cs nm fwd ib text pat wp (Some cap) = fuzzy_v1 co sc cs nm fwd ib text pat wp.
+Proof. exact v2_fallback_proof. Qed.
+Print Assumptions v2_fallback_is_v1.
 
 (* ---- ExactMatchNaive / ExactMatchBoundary ---- *)
 Theorem exact_sound : forall co sc cs nm fwd boundary is_bytes text pat s e score pos,
